@@ -587,6 +587,9 @@ pub async fn check_search(dev: &mut Device, rec: &mut Recorder, when: &str) {
             );
         }
     }
+    if std::env::var("SOSSIM_TRACE").is_ok() {
+        eprintln!("  check_search {} after {when}: expect {} docs, index holds {}", dev.name, expect.len(), got.len());
+    }
     if expect != got {
         let missing: Vec<_> = expect.keys().filter(|k| !got.contains_key(k)).collect();
         let stale: Vec<_> = got.keys().filter(|k| !expect.contains_key(k)).collect();
@@ -1506,7 +1509,16 @@ pub async fn check_union(world: &mut NetWorld, rec: &mut Recorder, did_converge:
                     .iter()
                     .filter(|(h, n)| got.get(*h).copied().unwrap_or(0) < **n)
                     .all(|(h, n)| *n > 1 && got.get(h).copied().unwrap_or(0) >= 1);
-                let tag = if collapsed { "/identical_events_collapsed" } else { rc_tag };
+                // the file event log starts empty: without a shared first
+                // event two devices' file logs have no common root at all
+                let rootless = k == "files" && base.is_empty();
+                let tag = if collapsed {
+                    "/identical_events_collapsed"
+                } else if rootless {
+                    "/file_log_without_common_root"
+                } else {
+                    rc_tag
+                };
                 rec.violate(
                     "C05",
                     &format!("C05/{phase}/event_lost{tag}/{}", log_kind(&k)),
